@@ -39,16 +39,19 @@ const c02ID = "C02"
 
 // c02Issued is the model's record of one issued token (the issuance state).
 type c02Issued struct {
-	Token      string
-	ClientID   string
-	Scope      string
-	IatMin     int64
-	IatMax     int64
-	Iat        *int64 // learned at first introspection (must lie in [IatMin, IatMax]); afterwards fixed
-	Shift      int64  // seconds the stored token was aged by the harness
-	Expired    bool
-	Jkt        *string
-	Claims     map[string]any
+	Token    string
+	ClientID string
+	Scope    string
+	IatMin   int64
+	IatMax   int64
+	Iat      *int64 // learned at first introspection (must lie in [IatMin, IatMax]); afterwards fixed
+	Shift    int64  // seconds the stored token was aged by the harness
+	Expired  bool
+	Jkt      *string
+	Claims   map[string]any
+	// NullClaims: ids of optional constraint fields for which the presented credential had no value (vcr/pe maps them
+	// to nil): no value was established; the answer may omit the claim or carry null, and must not touch a standard member
+	NullClaims map[string]bool
 	DefIDs     []string          // definitions fulfilled
 	Subs       map[string]any    // definition id -> submission JSON sent
 	VPs        []string          // raw presentations sent
@@ -170,10 +173,13 @@ func (s *c02State) s2sBody(r *c02Request, rd c02Rendered) HandleTokenRequestForm
 // record adds an issued token to the model.
 func (s *c02State) record(res c02TokenResult, clientID, scope string, legs []*c02Request, rds []c02Rendered) *c02Issued {
 	is := &c02Issued{Token: res.Token.AccessToken, ClientID: clientID, Scope: scope, IatMin: res.T0.Unix(), IatMax: res.T1.Unix(),
-		Jkt: res.Jkt, Claims: map[string]any{}, Subs: map[string]any{}, Configured: map[string]string{}}
+		Jkt: res.Jkt, Claims: map[string]any{}, NullClaims: map[string]bool{}, Subs: map[string]any{}, Configured: map[string]string{}}
 	for i, r := range legs {
 		for k, v := range r.expectedClaims() {
 			is.Claims[k] = v
+		}
+		for _, k := range r.valuelessClaims() {
+			is.NullClaims[k] = true
 		}
 		is.DefIDs = append(is.DefIDs, r.PD.ID)
 		is.Subs[r.PD.ID] = rds[i].SubJSON
@@ -278,7 +284,16 @@ func (s *c02State) checkIntrospection(is *c02Issued, extended bool) {
 			collide = append(collide, k)
 		}
 	}
+	for k := range is.NullClaims {
+		if c02StdMembers[k] {
+			collide = append(collide, k)
+		}
+	}
 	sort.Strings(collide)
+	fromCredential := func(member string) bool {
+		_, isClaim := is.Claims[member]
+		return isClaim || is.NullClaims[member]
+	}
 	if err != nil {
 		// refusing to answer is acceptable only as the guard against a claim that would override a standard member
 		if len(collide) == 0 {
@@ -289,11 +304,15 @@ func (s *c02State) checkIntrospection(is *c02Issued, extended bool) {
 		return
 	}
 	if code != 200 || m["active"] != true {
+		if fromCredential("active") && code == 200 {
+			x.Violate("introspect:override:active", "%s: standard member \"active\" = %s comes from a credential (claim id collides) for a valid, unexpired token", ep, c02Short(m["active"]))
+			return
+		}
 		x.Violate(ep+":inactive-for-valid-token", "valid, unexpired token reported as status %d %s", code, c02Short(m))
 		return
 	}
 	over := func(member string, got, want any) {
-		if _, isClaim := is.Claims[member]; isClaim {
+		if fromCredential(member) {
 			x.Violate("introspect:override:"+member, "%s: standard member %q = %s comes from a credential (claim id collides); value fixed at issuance is %s", ep, member, c02Short(got), c02Short(want))
 		} else {
 			x.Violate(ep+":wrong:"+member, "%s: member %q = %s, value fixed at issuance is %s", ep, member, c02Short(got), c02Short(want))
@@ -341,7 +360,7 @@ func (s *c02State) checkIntrospection(is *c02Issued, extended bool) {
 	}
 	// members the node never establishes at issuance
 	for _, k := range []string{"aud", "sub"} {
-		if v, has := m[k]; has {
+		if v, has := m[k]; has && v != nil { // (null = no value, like absent)
 			over(k, v, nil)
 		}
 	}
@@ -352,6 +371,10 @@ func (s *c02State) checkIntrospection(is *c02Issued, extended bool) {
 			want, isClaim := is.Claims[k]
 			v, has := m[k]
 			switch {
+			case is.NullClaims[k]:
+				if has && v != nil {
+					x.Violate(ep+":claim-wrong", "%s: claim %q = %s, but the credential has no value at the constraint path", ep, k, c02Short(v))
+				}
 			case isClaim && (!has || !c02JSONEq(v, want)):
 				x.Violate(ep+":claim-wrong", "%s: claim %q = %s, credential value at the constraint path is %s", ep, k, c02Short(v), c02Short(want))
 			case !isClaim && has:
@@ -375,8 +398,16 @@ func (s *c02State) checkIntrospection(is *c02Issued, extended bool) {
 			x.Violate(ep+":claim-wrong", "%s: claim %q = %s, credential value at the constraint path is %s", ep, k, c02Short(got), c02Short(want))
 		}
 	}
+	for k := range is.NullClaims {
+		if c02StdMembers[k] {
+			continue
+		}
+		if got, has := m[k]; has && got != nil {
+			x.Violate(ep+":claim-wrong", "%s: claim %q = %s, but the credential has no value at the constraint path", ep, k, c02Short(got))
+		}
+	}
 	for k := range m {
-		if _, isClaim := is.Claims[k]; !isClaim && !c02StdMembers[k] {
+		if !fromCredential(k) && !c02StdMembers[k] {
 			x.Class(ep + ":member-outside-model") // counted only: the property does not forbid further issuance-derived members
 		}
 	}
